@@ -220,8 +220,55 @@ def r16_4(ctx, fx):
            detail="functions writing n_succeeded: %s" % sorted(writers))
 
 
+def r16_5(ctx, fx):
+    """actions parked for a peer that is being dialed are keyed by PeerId (not fresh): parking must append, never replace"""
+    n = 0
+    for key in sorted(fx.find(r"^protocol::libp2p::kademlia::Kademlia::[a-z_]+(::\{closure#0\})?$")):
+        fn = fx.fn(key)
+        for i, c in enumerate(field_calls(fn, r"HashMap::insert$", "pending_dials")):
+            n += 1
+            ctx.bodies.add((fx.cfg, key))
+            looks = [l.node for l in field_calls(fn, r"HashMap::(contains_key|get|get_mut|remove)$", "pending_dials")]
+            guarded_ = bool(looks) and c.node not in fn.reach([fn.entry], avoid=looks)
+            used = any(True for node in fn.all_nodes() if _reads(fn, node, c.dest[0]))
+            ctx.ob("R16.5", "%s/pending_dials.insert#%d:no-silent-overwrite" % (short(key), i), guarded_ or used, site=fn.site(c.node), cfg=fx.cfg,
+                   detail="pending_dials is keyed by PeerId; an insert that neither inspects the displaced actions nor is guarded by a lookup drops the "
+                          "actions of other queries waiting for the same dial (their queries never finish)")
+        for c in field_calls(fn, r"HashMap::entry$", "pending_dials"):
+            n += 1
+            # entry(..).or_default().push(action): the Vec::push must follow
+            pushes = {x.node for x in fn.calls(r"Vec::push$")}
+            p = fn.witness_path([c.node], fn.return_nodes() + [x for x, _ in fn.exits()], avoid=pushes, after=True)
+            ctx.ob("R16.5", "%s/pending_dials.entry:appends" % short(key), p is None, site=fn.site(c.node), cfg=fx.cfg,
+                   detail="entry(peer) must be followed by a push of the action on every path")
+    ctx.anchor("R16.5", "sites parking an action in pending_dials", n, 1, cfg=fx.cfg)
+
+
+def _reads(fn, node, local):
+    x = fn.at(node)
+    if fn.is_term(node):
+        if x["k"] == "drop":
+            return False
+        if x["k"] == "switch":
+            p = x["o"].get("c") or x["o"].get("m")
+            return p is not None and p[0] == local
+        if x["k"] == "call":
+            return any((a.get("c") or a.get("m") or [None])[0] == local for a in x["args"])
+        return False
+    rv = x["rv"]
+    for k in ("o", "a", "b"):
+        if k in rv and isinstance(rv[k], dict):
+            p = rv[k].get("c") or rv[k].get("m")
+            if p is not None and p[0] == local:
+                return True
+    if "p" in rv and rv["p"][0] == local:
+        return True
+    return any((o.get("c") or o.get("m") or [None])[0] == local for o in rv.get("ops", []))
+
+
 def run(ctx):
     fx = ctx.facts("default")
+    r16_5(ctx, fx)
     r16_1(ctx, fx)
     r16_2(ctx, fx)
     r16_3(ctx, fx)
